@@ -22,8 +22,12 @@ META = dict(
               "histories A;B;A for pairs of the pool: the two runs of A write token-identical files; histories A;B;A "
               "of loading calls for 10 formats: A = a fixture cut at any of its first 40 line boundaries (mostly failing "
               "calls), B = the complete fixture of the same / of another format: same outcome kind, same message, same objects; a "
-              "lazily consumed load_many (mol2, xyz, sdf, pdb, gro; 3 frames) with complete loads of another file between its frames",
-        thorough="all ordered pairs of the pool for A;B;A"),
+              "lazily consumed load_many (mol2, xyz, sdf, pdb, gro; 3 frames) with complete loads of another file between its frames; "
+              "A;B;A with files in published layouts where A leaves something to the reader's fall-back rules (PDB without "
+              "element columns around a PDB with them, and five more pairs); one object (SP shell + another generalized "
+              "contraction) dumped to FCHK and then to each other wavefunction format and the reverse: outcome and file of the "
+              "second dump equal those of a fresh equal object",
+        thorough="all ordered pairs of the pool for A;B;A; all 20 ordered pairs of wavefunction writers for the same-object history"),
     outside=["thread interleavings (2..16 threads): no engine here models CPython thread scheduling; "
              "warnings.catch_warnings used by the API is documented as not thread-safe",
              "state outside the enumerated module globals that does not influence the written files of A;B;A"],
@@ -280,6 +284,45 @@ def h_interleaved(ctx, fmt="mol2", nframes=3, other="xyz"):
             ctx.oblige("load-between-frames-equals-stand-alone-load", f, cls=f"{cls}:{where[:40]}")
 
 
+def h_same_object(ctx, first="fchk", second="molden"):
+    """One object dumped to format `first` and then to format `second` (allow_changes=True, so that the writers may convert a
+    generalized basis the way they need): the second dump has the outcome and writes the file that the same call gives on a
+    fresh, equal object."""
+    import iodata.api as api
+    from iodata.iodata import IOData
+    from iodata.utils import DumpError, PrepareDumpError
+    from harness import c01, rt, wfobj
+    from symx.stubs import stubbed
+    mods = rt._fmt_modules(first) + [m for m in rt._fmt_modules(second) if m not in rt._fmt_modules(first)]
+    # an SP shell and another generalized contraction: the writers disagree on how such a basis must be segmented
+    shells = [(0, [0, 1], ["c", "c"], 2), (1, [0, 0], ["c", "c"], 2)]
+    with stubbed(*mods):
+        cache = {}
+        ra = _Record(ctx, cache)
+        kw1 = wfobj.make_wf(ra, c01.ATOMS, shells, conv="horton2", mo_kind="restricted", norb=2, occ="closed")
+        kw2 = wfobj.make_wf(_Replay(ctx, cache, ra._made), c01.ATOMS, shells, conv="horton2", mo_kind="restricted", norb=2,
+                            occ="closed")
+        used, fresh = IOData(**kw1), IOData(**kw2)
+
+        def dump(obj, fmt, tag):
+            path = ctx.tmp_path(tag + "." + c01.FILENAMES[fmt])
+            with warnings.catch_warnings(record=True):
+                warnings.simplefilter("always")
+                try:
+                    api.dump_one(obj, path, allow_changes=True)
+                    return "ok", ctx.read_text(path)
+                except (PrepareDumpError, DumpError) as e:
+                    return type(e).__name__, None
+        dump(used, first, "a")
+        out1, t1 = dump(used, second, "b")
+        out2, t2 = dump(fresh, second, "c")
+    cls = f"{first};{second}"
+    ctx.oblige("dump-after-another-dump-has-the-outcome-of-a-fresh-object", out1 == out2, cls=cls, detail=f"{out1} vs fresh {out2}")
+    if t1 is not None and t2 is not None:
+        ctx.oblige("dump-after-another-dump-writes-the-file-of-a-fresh-object",
+                   rt._text_equal(ctx, t1, t2) if ctx.mode == "sym" else t1 == t2, cls=cls)
+
+
 POOL = []
 
 
@@ -351,6 +394,13 @@ def jobs(tier):
     for k, (a, b) in enumerate(layout_pairs):
         out.append(job("C16", f"A;B;A-layout[{a[1]}|{b[1]}#{k}]", M, "h_aba", dict(a=list(a), b=list(b)), budget_s=300,
                        max_validate=2, max_paths=60))
+    # one object through two writers that need different conversions of its basis
+    wfs = ("fchk", "molden", "molekel", "wfn", "wfx")
+    for a in wfs:
+        for b in wfs:
+            if a != b and ("fchk" in (a, b) or tier == "thorough"):
+                out.append(job("C16", f"same-object[{a};{b}]", M, "h_same_object", dict(first=a, second=b), budget_s=300,
+                               max_validate=2, max_paths=60))
     # a lazily consumed trajectory with other loads between its frames
     for fmt, other in (("mol2", "xyz"), ("xyz", "mol2"), ("sdf", "pdb"), ("pdb", "sdf"), ("gro", "xyz"), ("mol2", "mol2"), ("xyz", "xyz")):
         out.append(job("C16", f"interleaved[{fmt}|{other}]", M, "h_interleaved", dict(fmt=fmt, nframes=3, other=other), budget_s=300,
